@@ -1335,6 +1335,9 @@ pub fn find_close_in_word(word: u64, p: u32) -> Option<u32> {
 /// assert_eq!(find_close(&words, 6, 3), Some(4)); // second inner pair
 /// ```
 pub fn find_close(words: &[u64], len: usize, p: usize) -> Option<usize> {
+    // Whole words past `len` hold no valid bits; the forward scan below must
+    // not walk into them.
+    let words = used_words(words, len);
     if p >= len || words.is_empty() {
         return None;
     }
@@ -1757,7 +1760,21 @@ pub struct BalancedParens<W = Vec<u64>, S: SelectSupport = NoSelect> {
     select: S,
 }
 
+/// The prefix of `words` that holds bits below `len`.
+///
+/// Storage may be longer than `len` needs (an over-allocated buffer, a padded
+/// mmap region). Those surplus whole words are not part of the sequence, so
+/// nothing may index, count or scan them.
+#[inline]
+fn used_words(words: &[u64], len: usize) -> &[u64] {
+    &words[..len.div_ceil(64).min(words.len())]
+}
+
 /// Build the V2 index structures with absolute cumulative rank.
+///
+/// Only the words holding bits below `len` are indexed (see [`used_words`]),
+/// so every returned per-word vector has one entry per *used* word.
+///
 /// Returns (l0_min_excess, l0_word_excess, l1_min_excess, l1_block_excess,
 ///          l2_min_excess, l2_block_excess, rank_l1, rank_l2, total_ones)
 #[allow(clippy::type_complexity)] // STYLE-0004: build-time index tuple; a named struct adds indirection to a build-only path
@@ -1784,6 +1801,7 @@ fn build_bp_index(
          The rank directory stores absolute cumulative counts as u32 (#188)"
     );
 
+    let words = used_words(words, len);
     if words.is_empty() || len == 0 {
         return (
             Vec::new(),
@@ -1998,13 +2016,18 @@ fn build_bp_index(
     )
 }
 
-/// Clear bits at or above `len` in the final word (same canonicalization as
+/// Clear every bit at or above `len`: the tail of the word holding bit
+/// `len - 1`, plus any whole word after it (same canonicalization as
 /// `BitVec::with_config`), so stray 1-bits cannot skew counting (#188).
 fn mask_final_word_in_place(words: &mut [u64], len: usize) {
+    let used = len.div_ceil(64);
     if len % 64 != 0 {
-        if let Some(last) = words.last_mut() {
+        if let Some(last) = words.get_mut(used - 1) {
             *last &= (1u64 << (len % 64)) - 1;
         }
+    }
+    for word in words.iter_mut().skip(used) {
+        *word = 0;
     }
 }
 
@@ -2079,7 +2102,7 @@ impl BalancedParens<Vec<u64>, WithSelect> {
             total_ones,
         ) = build_bp_index(&words, len);
 
-        let select = WithSelect::build(&words, total_ones);
+        let select = WithSelect::build(used_words(&words, len), total_ones);
 
         Self {
             words,
@@ -2241,7 +2264,8 @@ impl<W: AsRef<[u64]>> BalancedParens<W, WithCsPoppy> {
             total_ones,
         ) = build_bp_index(words.as_ref(), len);
 
-        let select = WithCsPoppy::build_with_rate(words.as_ref(), total_ones, rate);
+        let select =
+            WithCsPoppy::build_with_rate(used_words(words.as_ref(), len), total_ones, rate);
 
         Self {
             words,
@@ -2288,7 +2312,7 @@ impl<W: AsRef<[u64]>> BalancedParens<W, WithSelect> {
             total_ones,
         ) = build_bp_index(words.as_ref(), len);
 
-        let select = WithSelect::build(words.as_ref(), total_ones);
+        let select = WithSelect::build(used_words(words.as_ref(), len), total_ones);
 
         Self {
             words,
@@ -2326,6 +2350,18 @@ impl<W: AsRef<[u64]>, S: SelectSupport> BalancedParens<W, S> {
         self.words.as_ref()
     }
 
+    /// The words holding bits below `len`, excluding surplus whole words the
+    /// storage may carry past them.
+    ///
+    /// For the queries that consult the word count (`rank1`'s end-of-data
+    /// test, `select1`); the rest bound every read by `len` and never reach a
+    /// surplus word. The bound is the L0 length, fixed at construction:
+    /// `build_bp_index` emits one L0 entry per used word.
+    #[inline]
+    fn used_words(&self) -> &[u64] {
+        &self.words.as_ref()[..self.l0_min_excess.len()]
+    }
+
     /// Get the total number of 1-bits (open parentheses).
     #[inline]
     pub fn total_ones(&self) -> usize {
@@ -2347,7 +2383,7 @@ impl<W: AsRef<[u64]>, S: SelectSupport> BalancedParens<W, S> {
     pub fn select1(&self, k: usize) -> Option<usize> {
         self.select.select1(
             BpSelectCtx {
-                words: self.words.as_ref(),
+                words: self.used_words(),
                 len: self.len,
                 total_ones: self.total_ones,
                 rank_l1: &self.rank_l1,
@@ -2425,11 +2461,11 @@ impl<W: AsRef<[u64]>, S: SelectSupport> BalancedParens<W, S> {
         }
         let p = p.min(self.len);
 
-        let words = self.words.as_ref();
+        let words = self.used_words();
         let word_idx = p / 64;
         let bit_idx = p % 64;
 
-        // Handle boundary case: word_idx beyond actual words
+        // Handle boundary case: word_idx beyond the used words
         // This happens when p == len and len is a multiple of 64
         if word_idx >= words.len() {
             return self.rank1_slow(p);
@@ -2483,7 +2519,7 @@ impl<W: AsRef<[u64]>, S: SelectSupport> BalancedParens<W, S> {
     /// words strictly before the partial word, which is always counted through
     /// the `bit_idx` mask (#188).
     fn rank1_slow(&self, p: usize) -> usize {
-        let words = self.words.as_ref();
+        let words = self.used_words();
         let word_idx = p / 64;
         let bit_idx = p % 64;
 
@@ -3191,6 +3227,192 @@ mod tests {
         assert_eq!(bp.select1(68), None);
         assert_eq!(bp.select1(69), None);
     }
+
+    /// Every query both structures can answer, at position/rank `p`.
+    fn assert_same_answers<W1, S1, W2, S2>(
+        got: &BalancedParens<W1, S1>,
+        want: &BalancedParens<W2, S2>,
+        p: usize,
+        ctx: &str,
+    ) where
+        W1: AsRef<[u64]>,
+        S1: SelectSupport,
+        W2: AsRef<[u64]>,
+        S2: SelectSupport,
+    {
+        assert_eq!(got.is_open(p), want.is_open(p), "{ctx}: is_open({p})");
+        assert_eq!(got.rank1(p), want.rank1(p), "{ctx}: rank1({p})");
+        assert_eq!(got.rank0(p), want.rank0(p), "{ctx}: rank0({p})");
+        assert_eq!(got.select1(p), want.select1(p), "{ctx}: select1({p})");
+        assert_eq!(got.select0(p), want.select0(p), "{ctx}: select0({p})");
+        assert_eq!(got.excess(p), want.excess(p), "{ctx}: excess({p})");
+        assert_eq!(
+            got.find_close(p),
+            want.find_close(p),
+            "{ctx}: find_close({p})"
+        );
+        assert_eq!(got.find_open(p), want.find_open(p), "{ctx}: find_open({p})");
+        assert_eq!(got.enclose(p), want.enclose(p), "{ctx}: enclose({p})");
+        assert_eq!(
+            got.first_child(p),
+            want.first_child(p),
+            "{ctx}: first_child({p})"
+        );
+        assert_eq!(
+            got.next_sibling(p),
+            want.next_sibling(p),
+            "{ctx}: next_sibling({p})"
+        );
+        assert_eq!(got.depth(p), want.depth(p), "{ctx}: depth({p})");
+        assert_eq!(
+            got.subtree_size(p),
+            want.subtree_size(p),
+            "{ctx}: subtree_size({p})"
+        );
+    }
+
+    /// Whole words stored past `len` are not part of the sequence: whatever
+    /// they hold, every constructor and the free functions must answer exactly
+    /// as for the storage cut down to the words `len` needs.
+    #[allow(deprecated)] // STYLE-0004: deliberately exercises the deprecated WithSelect path
+    #[test]
+    fn test_surplus_words_past_len_are_ignored() {
+        // Minimal reproductions first.
+        let bp = BalancedParens::new(vec![0b0011, u64::MAX, u64::MAX], 4);
+        assert_eq!(bp.total_ones(), 2);
+        assert_eq!(bp.total_zeros(), 2);
+        assert_eq!(bp.words(), &[0b0011, 0, 0]);
+        let bp = BalancedParens::from_words_with_cspoppy(&[0b0011u64, u64::MAX][..], 4);
+        assert_eq!(bp.total_ones(), 2);
+        assert_eq!(bp.select0(1), Some(3));
+        assert_eq!(bp.select0(2), None);
+        assert_eq!(find_close(&[0b0111, 0], 3, 0), None);
+        assert_eq!(find_close(&[(1 << 40) - 1, 0], 40, 0), None);
+        assert_eq!(find_close(&[0xFF, 0], 8, 0), None);
+
+        // xorshift64*: deterministic, no dev-dependency needed in a unit test.
+        let mut state = 0x9E37_79B9_7F4A_7C15u64;
+        let mut next = move || {
+            state ^= state >> 12;
+            state ^= state << 25;
+            state ^= state >> 27;
+            state.wrapping_mul(0x2545_F491_4F6C_DD1D)
+        };
+
+        for case in 0..SURPLUS_CASES {
+            // Word counts straddle the rank-block (8) and L1 (32) factors.
+            let used = match next() % 8 {
+                0 => 0,
+                1 => 1,
+                2 => 8,
+                3 => 32 + (next() % 3) as usize,
+                _ => 1 + (next() % 12) as usize,
+            };
+            let len = if used == 0 || next() % 3 == 0 {
+                used * 64
+            } else {
+                used * 64 - (next() % 64) as usize
+            };
+
+            // Random parentheses with an upward drift, or plain noise.
+            let mut clean = vec![0u64; len.div_ceil(64)];
+            let noise = next() % 4 == 0;
+            let mut depth = 0u32;
+            for i in 0..len {
+                let open = if noise {
+                    next() & 1 == 1
+                } else {
+                    depth == 0 || (next() % 16 < 9 && (depth as usize) < len - i)
+                };
+                if open {
+                    clean[i / 64] |= 1 << (i % 64);
+                    depth += 1;
+                } else {
+                    depth = depth.saturating_sub(1);
+                }
+            }
+
+            let mut dirty = clean.clone();
+            for _ in 0..=next() % 9 {
+                dirty.push(match next() % 4 {
+                    0 => 0,
+                    1 => u64::MAX,
+                    _ => next(),
+                });
+            }
+
+            let ctx = format!("case {case}: len {len}, {} stored words", dirty.len());
+            let want = BalancedParens::new_with_cspoppy(clean.clone(), len);
+            let want_sel = BalancedParens::new_with_select(clean.clone(), len);
+
+            let new = BalancedParens::new(dirty.clone(), len);
+            let new_sel = BalancedParens::new_with_select(dirty.clone(), len);
+            let new_cs = BalancedParens::new_with_cspoppy(dirty.clone(), len);
+            let rate = 1 + (next() % 300) as u32;
+            let config = Config {
+                select_sample_rate: rate,
+            };
+            let new_cfg =
+                BalancedParens::new_with_cspoppy_config(dirty.clone(), len, config.clone());
+            let from = BalancedParens::<_, NoSelect>::from_words(&dirty[..], len);
+            let from_sel = BalancedParens::<_, WithSelect>::from_words_with_select(&dirty[..], len);
+            let from_cs = BalancedParens::from_words_with_cspoppy(&dirty[..], len);
+            let from_cfg = BalancedParens::from_words_with_cspoppy_config(&dirty[..], len, config);
+            let no_sel = BalancedParens::new(clean.clone(), len);
+
+            assert_eq!(from.words(), &dirty[..], "{ctx}: storage untouched");
+            assert_eq!(new.words().len(), dirty.len(), "{ctx}: storage kept");
+            assert_eq!(&new.words()[..clean.len()], &clean[..], "{ctx}");
+            assert!(new.words()[clean.len()..].iter().all(|&w| w == 0), "{ctx}");
+
+            macro_rules! totals {
+                ($($bp:ident),*) => {$(
+                    assert_eq!($bp.total_ones(), want.total_ones(), "{ctx}: {}", stringify!($bp));
+                    assert_eq!($bp.total_zeros(), want.total_zeros(), "{ctx}: {}", stringify!($bp));
+                )*};
+            }
+            totals!(new, new_sel, new_cs, new_cfg, from, from_sel, from_cs, from_cfg);
+
+            let mut positions: Vec<usize> = if len <= 200 {
+                (0..len + 3).collect()
+            } else {
+                (0..120)
+                    .map(|_| (next() % (len as u64 + 3)) as usize)
+                    .collect()
+            };
+            positions.extend([0, len.saturating_sub(1), len, len + 1, len + 64, len + 65]);
+
+            for &p in &positions {
+                assert_same_answers(&new, &no_sel, p, &ctx);
+                assert_same_answers(&from, &no_sel, p, &ctx);
+                assert_same_answers(&new_sel, &want_sel, p, &ctx);
+                assert_same_answers(&from_sel, &want_sel, p, &ctx);
+                assert_same_answers(&new_cs, &want, p, &ctx);
+                assert_same_answers(&new_cfg, &want, p, &ctx);
+                assert_same_answers(&from_cs, &want, p, &ctx);
+                assert_same_answers(&from_cfg, &want, p, &ctx);
+
+                assert_eq!(
+                    find_close(&dirty, len, p),
+                    find_close(&clean, len, p),
+                    "{ctx}: free find_close({p})"
+                );
+                assert_eq!(
+                    find_open(&dirty, len, p),
+                    find_open(&clean, len, p),
+                    "{ctx}: free find_open({p})"
+                );
+                assert_eq!(
+                    enclose(&dirty, len, p),
+                    enclose(&clean, len, p),
+                    "{ctx}: free enclose({p})"
+                );
+            }
+        }
+    }
+
+    /// Randomized cases in `test_surplus_words_past_len_are_ignored`.
+    const SURPLUS_CASES: usize = 300;
 
     // ========================================================================
     // Select index space cost (#64 Step A)
